@@ -34,6 +34,8 @@ impl<C: CommentsParser> BlocksParser for BlocksFromCommentsParser<C> {
 pub(crate) fn parse_blocks_from_comments(
     comments: impl Iterator<Item = Comment>,
 ) -> anyhow::Result<Vec<Block>> {
+    #[cfg(blockwatch_verif)]
+    let comments = crate::verif_hooks::record(comments);
     let mut blocks = Vec::new();
     let mut block_starts = Vec::new();
     for partial_block in PartialBlocksIterator::new(comments) {
